@@ -355,3 +355,401 @@ Proof.
       split; [split; assumption|]. repeat split; intros; discriminate.
   - injection Hstep as <- <-. rewrite Epc. cbn. repeat split; intros; discriminate.
 Qed.
+
+Lemma wh_forall_set_nth {A} (P : A -> Prop) (l : list A) k v :
+  Forall P l -> P v -> Forall P (wh_set_nth l k v).
+Proof.
+  unfold wh_set_nth. intros Hl Hv. revert k. induction Hl as [|a l Ha Hl IH]; intros k.
+  - destruct k; cbn; constructor; try assumption; constructor.
+  - destruct k as [|k]; cbn [firstn skipn app].
+    + constructor; assumption.
+    + constructor; [exact Ha|apply IH].
+Qed.
+
+Lemma wh_step_inv s tid : wh_inv s -> wh_inv (fst (wh_step WFixed s tid)).
+Proof.
+  intros Hinv. destruct tid as [|k]; [apply wh_tick_step_inv; exact Hinv|].
+  cbn [wh_step]. destruct (nth_error (wh_threads s) k) as [th|] eqn:En; [|exact Hinv].
+  destruct (wh_req_step_th WFixed s th) as [th' ev] eqn:Est. cbn [fst].
+  destruct Hinv as [Hg [Ht Hr]].
+  assert (Hth : wh_rinv (wh_n s) (wh_nclosed s) (wh_P s) (wh_rpc_of th)).
+  { unfold wh_tsinv in Hr. rewrite Forall_forall in Hr. apply Hr. eapply nth_error_In. eassumption. }
+  destruct (wh_req_step_th_inv _ _ _ _ Hg Ht Hth Est) as [Hth' _].
+  split; [|split].
+  - destruct Hg. constructor; assumption.
+  - exact Ht.
+  - unfold wh_tsinv. cbn. apply wh_forall_set_nth; assumption.
+Qed.
+
+(* events of a ticker step from a state satisfying the invariant *)
+Lemma wh_tick_step_event s :
+  wh_inv s ->
+  let s' := fst (wh_tick_step WFixed s) in
+  let ev := snd (wh_tick_step WFixed s) in
+  wh_n s' = wh_n s /\ wh_s s' = wh_s s /\
+  ((ev = WETickRet (S (wh_nclosed s)) (wh_nclosed s) /\ wh_nclosed s' = S (wh_nclosed s)) \/
+   ((ev = WENone \/ ev = WEInt \/ ev = WETickInv (S (wh_nstarted s))) /\ wh_nclosed s' = wh_nclosed s)).
+Proof.
+  intros [Hg [Ht Hr]]. unfold wh_tick_step. unfold wh_tinv in Ht.
+  destruct (wh_tpc_of s) eqn:E.
+  - destruct (wh_ticks s); cbn; auto 7.
+  - cbn; auto 7.
+  - destruct (nth_error (wh_slots s) lp) eqn:En; [cbn; auto 7|].
+    exfalso. destruct Hg as [g1 g2 g3 g4 g5 g6 g7 g8]. apply nth_error_None in En. rewrite g4 in En.
+    pose proof (Nat.mod_upper_bound (wh_nclosed s) (wh_n s) ltac:(lia)). lia.
+  - cbn; auto 7.
+  - cbn; auto 7.
+  - destruct Ht as [Ht1 Ht2]. rewrite (gi_log s Hg). subst last. rewrite Nat.ltb_irrefl. cbn. auto 7.
+  - destruct Ht.
+Qed.
+
+(* events of a requester step (no invariant needed) *)
+Lemma wh_req_step_th_event o s th th' ev :
+  wh_req_step_th o s th = (th', ev) ->
+  (forall d i k0, ev = WEInv d i k0 -> wh_bucket_index (wh_s s) (wh_n s) d = Some i /\ k0 = wh_nclosed s) /\
+  (forall d, ev = WEPanicRange d -> wh_bucket_index (wh_s s) (wh_n s) d = None) /\
+  (forall i k0 k1 ch, ev = WERet i k0 k1 ch -> k1 = wh_nstarted s).
+Proof.
+  unfold wh_req_step_th. intros H.
+  destruct (wh_rpc_of th) as [|i k0|i k0 p|i k0 p x|].
+  - destruct (wh_todo th) as [|op rest]; [injection H as <- <-; repeat split; intros; discriminate|].
+    destruct (wh_eff_duration (wh_s s) (wh_tint th) op) as [d ti].
+    destruct (wh_bucket_index (wh_s s) (wh_n s) d) as [i|] eqn:Ei; injection H as <- <-.
+    + split; [|split]; intros; try discriminate. injection H as <- <- <-. split; [exact Ei|reflexivity].
+    + split; [|split]; intros; try discriminate. injection H as <-. exact Ei.
+  - injection H as <- <-. split; [|split]; intros; discriminate.
+  - destruct (nth_error (wh_slots s) ((p + i) mod wh_n s)); [destruct o|]; injection H as <- <-;
+      (split; [|split]; intros; try discriminate). injection H as <- <- <- <-. reflexivity.
+  - destruct (p =? wh_pos s); injection H as <- <-; (split; [|split]; intros; try discriminate).
+    injection H as <- <- <- <-. reflexivity.
+  - injection H as <- <-. split; [|split]; intros; discriminate.
+Qed.
+
+Definition wh_is_tickret (ev : wh_event) : bool :=
+  match ev with WETickRet _ _ => true | _ => false end.
+
+(* everything the theorems need about one step from a state satisfying the invariant *)
+Lemma wh_step_event s tid :
+  wh_inv s ->
+  let s' := fst (wh_step WFixed s tid) in
+  let ev := snd (wh_step WFixed s tid) in
+  wh_n s' = wh_n s /\ wh_s s' = wh_s s /\
+  ev <> WEPanicIndex /\ (forall ch, ev <> WEPanicClose ch) /\
+  (forall i k0 k1 ch, ev = WERet i k0 k1 ch -> k0 + i <= ch /\ ch <= k1 + i /\ k1 = wh_nstarted s) /\
+  (forall d i k0, ev = WEInv d i k0 -> wh_bucket_index (wh_s s) (wh_n s) d = Some i /\ k0 = wh_nclosed s) /\
+  (forall d, ev = WEPanicRange d -> wh_bucket_index (wh_s s) (wh_n s) d = None) /\
+  (forall g, ev = WETickInv g -> tid = 0 /\ g = S (wh_nstarted s)) /\
+  (if wh_is_tickret ev
+   then tid = 0 /\ ev = WETickRet (S (wh_nclosed s)) (wh_nclosed s) /\ wh_nclosed s' = S (wh_nclosed s)
+   else wh_nclosed s' = wh_nclosed s).
+Proof.
+  intros Hinv. destruct tid as [|k].
+  - cbn [wh_step]. destruct (wh_tick_step_event s Hinv) as [Hn [Hs Hev]].
+    split; [exact Hn|]. split; [exact Hs|].
+    destruct Hev as [[Hev Hc] | [[Hev | [Hev | Hev]] Hc]]; rewrite Hev; cbn [wh_is_tickret];
+      (split; [discriminate|]); (split; [intros; discriminate|]); (split; [intros; discriminate|]);
+      (split; [intros; discriminate|]); (split; [intros; discriminate|]); split; try (intros; discriminate); auto.
+    intros g Hg. injection Hg as <-. auto.
+  - cbn [wh_step]. destruct (nth_error (wh_threads s) k) as [th|] eqn:En.
+    + destruct (wh_req_step_th WFixed s th) as [th' ev] eqn:Est. cbn [fst snd].
+      destruct Hinv as [Hg [Ht Hr]].
+      assert (Hth : wh_rinv (wh_n s) (wh_nclosed s) (wh_P s) (wh_rpc_of th)).
+      { unfold wh_tsinv in Hr. rewrite Forall_forall in Hr. apply Hr. eapply nth_error_In. eassumption. }
+      destruct (wh_req_step_th_inv _ _ _ _ Hg Ht Hth Est) as [_ [H1 [H2 [H3 [H4 H5]]]]].
+      destruct (wh_req_step_th_event _ _ _ _ _ Est) as [H6 [H7 H8]].
+      split; [reflexivity|]. split; [reflexivity|]. split; [exact H1|]. split; [exact H2|].
+      split. { intros i k0 k1 ch Hev. destruct (H5 _ _ _ _ Hev). repeat split; try assumption. eapply H8; exact Hev. }
+      split; [exact H6|]. split; [exact H7|].
+      split. { intros g Hev. exfalso. eapply H3; exact Hev. }
+      destruct ev; cbn [wh_is_tickret]; try reflexivity. exfalso. eapply H4. reflexivity.
+    + cbn [fst snd wh_is_tickret]. split; [reflexivity|]. split; [reflexivity|].
+      split; [discriminate|]. repeat (split; [intros; discriminate|]). reflexivity.
+Qed.
+
+(* ------------------------------------------------------------------ runs and traces *)
+
+Lemma wh_run_cons o s i rest :
+  wh_run o s (i :: rest) =
+  (fst (wh_run o (fst (wh_step o s i)) rest), (i, snd (wh_step o s i)) :: snd (wh_run o (fst (wh_step o s i)) rest)).
+Proof.
+  cbn [wh_run]. destruct (wh_step o s i) as [s1 ev]. cbn [fst snd].
+  destruct (wh_run o s1 rest) as [s2 tr]. reflexivity.
+Qed.
+
+Lemma wh_final_cons o s i rest : wh_final o s (i :: rest) = wh_final o (fst (wh_step o s i)) rest.
+Proof. unfold wh_final. rewrite wh_run_cons. reflexivity. Qed.
+
+Lemma wh_trace_cons o s i rest :
+  wh_trace o s (i :: rest) = (i, snd (wh_step o s i)) :: wh_trace o (fst (wh_step o s i)) rest.
+Proof. unfold wh_trace. rewrite wh_run_cons. reflexivity. Qed.
+
+Lemma wh_final_app o s a b : wh_final o s (a ++ b) = wh_final o (wh_final o s a) b.
+Proof.
+  revert s. induction a as [|i a IH]; intros s; [reflexivity|].
+  cbn [app]. rewrite !wh_final_cons. apply IH.
+Qed.
+
+Lemma wh_final_inv s sched : wh_inv s -> wh_inv (wh_final WFixed s sched).
+Proof.
+  revert s. induction sched as [|i r IH]; intros s H; [exact H|].
+  rewrite wh_final_cons. apply IH. apply wh_step_inv. exact H.
+Qed.
+
+Lemma wh_final_cfg s sched :
+  wh_inv s -> wh_n (wh_final WFixed s sched) = wh_n s /\ wh_s (wh_final WFixed s sched) = wh_s s.
+Proof.
+  revert s. induction sched as [|i r IH]; intros s H; [split; reflexivity|].
+  rewrite wh_final_cons. destruct (IH _ (wh_step_inv s i H)) as [H1 H2].
+  destruct (wh_step_event s i H) as [H3 [H4 _]]. split; congruence.
+Qed.
+
+(* an event of the trace was produced by a step from the state reached by a prefix *)
+Lemma wh_trace_in o s sched tid ev :
+  In (tid, ev) (wh_trace o s sched) ->
+  exists pre post, sched = pre ++ tid :: post /\ snd (wh_step o (wh_final o s pre) tid) = ev.
+Proof.
+  revert s. induction sched as [|i r IH]; intros s H; [destruct H|].
+  rewrite wh_trace_cons in H. destruct H as [H | H].
+  - injection H as -> <-. exists [], r. split; reflexivity.
+  - destruct (IH _ H) as [pre [post [E1 E2]]]. exists (i :: pre), post. split.
+    + cbn [app]. f_equal. exact E1.
+    + rewrite wh_final_cons. exact E2.
+Qed.
+
+Lemma wh_nclosed_mono s sched : wh_inv s -> wh_nclosed s <= wh_nclosed (wh_final WFixed s sched).
+Proof.
+  revert s. induction sched as [|i r IH]; intros s H; [cbn; lia|].
+  rewrite wh_final_cons. specialize (IH _ (wh_step_inv s i H)).
+  destruct (wh_step_event s i H) as [_ [_ [_ [_ [_ [_ [_ [_ Hc]]]]]]]].
+  destruct (wh_is_tickret (snd (wh_step WFixed s i))); lia.
+Qed.
+
+(* the close events of a trace, in order: (tick number, channel) *)
+Fixpoint wh_closes (tr : list (nat * wh_event)) : list (nat * nat) :=
+  match tr with
+  | [] => []
+  | (_, WETickRet g ch) :: r => (g, ch) :: wh_closes r
+  | _ :: r => wh_closes r
+  end.
+
+Lemma wh_closes_run s sched :
+  wh_inv s ->
+  wh_closes (wh_trace WFixed s sched)
+  = map (fun c => (S c, c)) (seq (wh_nclosed s) (wh_nclosed (wh_final WFixed s sched) - wh_nclosed s)).
+Proof.
+  revert s. induction sched as [|i r IH]; intros s H.
+  - cbn. rewrite Nat.sub_diag. reflexivity.
+  - rewrite wh_trace_cons, wh_final_cons.
+    pose proof (wh_nclosed_mono _ r (wh_step_inv s i H)) as Hm.
+    specialize (IH _ (wh_step_inv s i H)).
+    destruct (wh_step_event s i H) as [_ [_ [_ [_ [_ [_ [_ [_ Hc]]]]]]]].
+    destruct (snd (wh_step WFixed s i)) eqn:Eev; cbn [wh_is_tickret] in Hc; cbn [wh_closes];
+      try (rewrite IH, Hc; reflexivity).
+    destruct Hc as [_ [Hev Hc]]. injection Hev as -> ->. rewrite IH, Hc.
+    replace (wh_nclosed (wh_final WFixed (fst (wh_step WFixed s i)) r) - wh_nclosed s)
+      with (S (wh_nclosed (wh_final WFixed (fst (wh_step WFixed s i)) r) - S (wh_nclosed s))) by lia.
+    reflexivity.
+Qed.
+
+(* ------------------------------------------------------------------ the property lemmas *)
+
+Definition wh_cfg_ok (s : Z) (n : nat) : Prop := (0 < s)%Z /\ 1 <= n /\ (s * Z.of_nat n < 2 ^ 63)%Z.
+
+Lemma wh_reach_inv s n ticks progs sched :
+  wh_cfg_ok s n -> wh_inv (wh_final WFixed (wh_init s n ticks progs) sched).
+Proof. intros [H1 [H2 H3]]. apply wh_final_inv. apply wh_init_inv; assumption. Qed.
+
+Lemma wh_fire_window s n ticks progs sched tid i k0 k1 ch :
+  wh_cfg_ok s n ->
+  In (tid, WERet i k0 k1 ch) (wh_trace WFixed (wh_init s n ticks progs) sched) ->
+  let sf := wh_final WFixed (wh_init s n ticks progs) sched in
+  exists f, k0 + i + 1 <= f /\ f <= k1 + i + 1 /\
+            (forall g, wh_closed_at sf ch = Some g -> g = f) /\
+            (f <= wh_nclosed sf -> wh_closed_at sf ch = Some f).
+Proof.
+  intros Hcfg Hin sf. destruct (wh_trace_in _ _ _ _ _ Hin) as [pre [post [Esched Eev]]].
+  pose proof (wh_reach_inv s n ticks progs pre Hcfg) as Hpre.
+  destruct (wh_step_event _ tid Hpre) as [_ [_ [_ [_ [Hret _]]]]].
+  destruct (Hret _ _ _ _ Eev) as [Hlo [Hhi _]].
+  pose proof (wh_reach_inv s n ticks progs sched Hcfg) as [Hg _]. fold sf in Hg.
+  exists (S ch). split; [lia|]. split; [lia|]. rewrite (gi_log sf Hg).
+  destruct (ch <? wh_nclosed sf) eqn:E.
+  - split; [intros g Hg'; injection Hg' as <-; reflexivity|reflexivity].
+  - split; [intros g Hg'; discriminate|]. apply Nat.ltb_ge in E. lia.
+Qed.
+
+(* the ghost counters carried by the events are the real ones *)
+Lemma wh_event_counters s n ticks progs pre tid :
+  wh_cfg_ok s n ->
+  let s1 := wh_final WFixed (wh_init s n ticks progs) pre in
+  let ev := snd (wh_step WFixed s1 tid) in
+  (forall d i k0, ev = WEInv d i k0 -> wh_bucket_index s n d = Some i /\ k0 = wh_nclosed s1) /\
+  (forall i k0 k1 ch, ev = WERet i k0 k1 ch -> k1 = wh_nstarted s1) /\
+  (forall d, ev = WEPanicRange d -> (d < 0 \/ s * Z.of_nat n <= d)%Z) /\
+  (forall g, ev = WETickInv g -> g = S (wh_nstarted s1)) /\
+  (forall g ch, ev = WETickRet g ch -> g = S (wh_nclosed s1)).
+Proof.
+  intros Hcfg s1 ev. pose proof (wh_reach_inv s n ticks progs pre Hcfg) as Hinv. fold s1 in Hinv.
+  destruct (wh_final_cfg (wh_init s n ticks progs) pre) as [Hn Hs].
+  { destruct Hcfg as [H1 [H2 H3]]. apply wh_init_inv; assumption. }
+  fold s1 in Hn, Hs. cbn in Hn, Hs.
+  destruct (wh_step_event s1 tid Hinv) as [_ [_ [_ [_ [Hret [Hinvk [Hpan [Hti Htr]]]]]]]]. fold ev in Hret, Hinvk, Hpan, Hti, Htr.
+  rewrite Hn, Hs in Hinvk, Hpan.
+  split; [exact Hinvk|]. split; [intros i k0 k1 ch Hev; apply (Hret _ _ _ _ Hev)|].
+  split. { intros d Hev. destruct Hcfg as [H1 [H2 H3]]. apply (wh_index_panic_iff s n d H1 H3). apply Hpan. exact Hev. }
+  split; [intros g Hev; apply (Hti g Hev)|].
+  intros g ch Hev. rewrite Hev in Htr. cbn [wh_is_tickret] in Htr. destruct Htr as [_ [Htr _]]. congruence.
+Qed.
+
+Lemma wh_no_panic s n ticks progs sched tid :
+  wh_cfg_ok s n ->
+  let tr := wh_trace WFixed (wh_init s n ticks progs) sched in
+  ~ In (tid, WEPanicIndex) tr /\ (forall ch, ~ In (tid, WEPanicClose ch) tr) /\
+  (forall d, In (tid, WEPanicRange d) tr -> (d < 0 \/ s * Z.of_nat n <= d)%Z).
+Proof.
+  intros Hcfg tr. split; [|split].
+  - intros Hin. destruct (wh_trace_in _ _ _ _ _ Hin) as [pre [post [_ Eev]]].
+    destruct (wh_step_event _ tid (wh_reach_inv s n ticks progs pre Hcfg)) as [_ [_ [H _]]]. exact (H Eev).
+  - intros ch Hin. destruct (wh_trace_in _ _ _ _ _ Hin) as [pre [post [_ Eev]]].
+    destruct (wh_step_event _ tid (wh_reach_inv s n ticks progs pre Hcfg)) as [_ [_ [_ [H _]]]]. exact (H ch Eev).
+  - intros d Hin. destruct (wh_trace_in _ _ _ _ _ Hin) as [pre [post [_ Eev]]].
+    destruct (wh_event_counters s n ticks progs pre tid Hcfg) as [_ [_ [H _]]]. exact (H d Eev).
+Qed.
+
+(* exactly once: the close events of any run are tick 1 closing channel 0, tick 2 closing
+   channel 1, ... one per completed tick, and the log agrees *)
+Lemma wh_fire_once s n ticks progs sched :
+  wh_cfg_ok s n ->
+  let sf := wh_final WFixed (wh_init s n ticks progs) sched in
+  wh_closes (wh_trace WFixed (wh_init s n ticks progs) sched)
+  = map (fun c => (S c, c)) (seq 0 (wh_nclosed sf)) /\
+  (forall ch, wh_closed_at sf ch = if ch <? wh_nclosed sf then Some (S ch) else None).
+Proof.
+  intros [H1 [H2 H3]] sf. split.
+  - rewrite (wh_closes_run _ sched (wh_init_inv s n ticks progs H1 H2 H3)). cbn [wh_nclosed wh_init].
+    rewrite Nat.sub_0_r. reflexivity.
+  - apply gi_log. apply (wh_reach_inv s n ticks progs sched). repeat split; assumption.
+Qed.
+
+(* Reset is a fresh request: same step, same event as NewTimer with the effective duration *)
+Lemma wh_reset_same o s rest ti x :
+  let d := fst (wh_eff_duration (wh_s s) ti (WReset x)) in
+  let th op := {| wh_rpc_of := WRIdle; wh_todo := op :: rest; wh_tint := ti |} in
+  wh_rpc_of (fst (wh_req_step_th o s (th (WReset x)))) = wh_rpc_of (fst (wh_req_step_th o s (th (WNew d)))) /\
+  snd (wh_req_step_th o s (th (WReset x))) = snd (wh_req_step_th o s (th (WNew d))) /\
+  wh_tint (fst (wh_req_step_th o s (th (WReset x)))) = ti /\
+  (d = match x with Some v => if (wh_s s <=? v)%Z then v else ti | None => ti end).
+Proof.
+  intros d th. subst d th. unfold wh_req_step_th. cbn [wh_rpc_of wh_todo wh_tint wh_eff_duration].
+  destruct x as [v|]; cbn [fst];
+    destruct (wh_bucket_index (wh_s s) (wh_n s) _); cbn; repeat split; reflexivity.
+Qed.
+
+(* the original step order: the request of the D1 replay obtains the fresh channel *)
+Lemma wh_orig_refuted :
+  let s0 := wh_init 3600000000000 4 5 [[WNew 0%Z]] in
+  let sched := [0;0;0;0; 1;1;1; 0;0; 0;0;0;0;0;0; 0;0;0;0;0;0; 0;0;0;0;0;0; 0;0;0;0;0;0] in
+  In (1, WERet 0 0 1 4) (wh_trace WOrig s0 sched) /\
+  wh_closed_at (wh_final WOrig s0 sched) 4 = Some 5 /\ 5 > 1 + 0 + 1.
+Proof. vm_compute. repeat split; auto 10. Qed.
+
+(* ------------------------------------------------------------------ per-thread protocol (any order) *)
+
+Definition wh_proj (tid : nat) (tr : list (nat * wh_event)) : list wh_event :=
+  map snd (filter (fun e => fst e =? tid) tr).
+
+Inductive wh_aut := WAIdle | WARun (i k0 : nat) | WADead.
+
+Definition wh_aut_step (a : wh_aut) (ev : wh_event) : option wh_aut :=
+  match a, ev with
+  | _, WENone => Some a
+  | WAIdle, WEInv _ i k0 => Some (WARun i k0)
+  | WAIdle, WEPanicRange _ => Some WADead
+  | WARun i k0, WEInt => Some (WARun i k0)
+  | WARun i k0, WEPanicIndex => Some WADead
+  | WARun i k0, WERet i' k0' _ _ => if (i =? i') && (k0 =? k0') then Some WAIdle else None
+  | _, _ => None
+  end.
+
+Fixpoint wh_aut_run (a : wh_aut) (evs : list wh_event) : option wh_aut :=
+  match evs with
+  | [] => Some a
+  | e :: r => match wh_aut_step a e with Some a' => wh_aut_run a' r | None => None end
+  end.
+
+Definition wh_aut_of_pc (pc : wh_rpc) : wh_aut :=
+  match pc with
+  | WRIdle => WAIdle
+  | WR1 i k0 | WR2 i k0 _ | WR3 i k0 _ _ => WARun i k0
+  | WRDead => WADead
+  end.
+
+Definition wh_aut_of (s : wh_state) (k : nat) : wh_aut :=
+  match nth_error (wh_threads s) k with
+  | Some th => wh_aut_of_pc (wh_rpc_of th)
+  | None => WADead
+  end.
+
+Lemma wh_req_step_aut o s th th' ev :
+  wh_req_step_th o s th = (th', ev) ->
+  wh_aut_step (wh_aut_of_pc (wh_rpc_of th)) ev = Some (wh_aut_of_pc (wh_rpc_of th')).
+Proof.
+  unfold wh_req_step_th. intros H.
+  destruct (wh_rpc_of th) as [|i k0|i k0 p|i k0 p x|] eqn:Epc.
+  - destruct (wh_todo th) as [|op rest]; [injection H as <- <-; rewrite Epc; reflexivity|].
+    destruct (wh_eff_duration (wh_s s) (wh_tint th) op) as [d ti].
+    destruct (wh_bucket_index (wh_s s) (wh_n s) d) as [i|]; injection H as <- <-; reflexivity.
+  - injection H as <- <-. reflexivity.
+  - destruct (nth_error (wh_slots s) ((p + i) mod wh_n s)); [destruct o|]; injection H as <- <-;
+      cbn; rewrite ?Nat.eqb_refl; reflexivity.
+  - destruct (p =? wh_pos s); injection H as <- <-; cbn; rewrite ?Nat.eqb_refl; reflexivity.
+  - injection H as <- <-. rewrite Epc. reflexivity.
+Qed.
+
+Lemma wh_tick_step_threads o s : wh_threads (fst (wh_tick_step o s)) = wh_threads s.
+Proof.
+  unfold wh_tick_step. destruct (wh_tpc_of s); try reflexivity.
+  - destruct (wh_ticks s); reflexivity.
+  - destruct (nth_error (wh_slots s) lp); reflexivity.
+  - destruct o; reflexivity.
+  - destruct o; reflexivity.
+  - destruct (wh_closed_at s last); reflexivity.
+Qed.
+
+Lemma wh_thread_protocol_gen o sched : forall s k th,
+  nth_error (wh_threads s) k = Some th ->
+  wh_aut_run (wh_aut_of_pc (wh_rpc_of th)) (wh_proj (S k) (wh_trace o s sched))
+  = Some (wh_aut_of (wh_final o s sched) k).
+Proof.
+  induction sched as [|i r IH]; intros s k th Hk.
+  - cbn. unfold wh_aut_of. rewrite Hk. reflexivity.
+  - rewrite wh_trace_cons, wh_final_cons. unfold wh_proj. cbn [filter fst].
+    destruct (i =? S k) eqn:Ei.
+    + apply Nat.eqb_eq in Ei. subst i. cbn [map snd wh_aut_run].
+      cbn [wh_step]. rewrite Hk.
+      destruct (wh_req_step_th o s th) as [th' ev] eqn:Est. cbn [fst snd].
+      rewrite (wh_req_step_aut _ _ _ _ _ Est).
+      apply IH. cbn [wh_threads wh_set_thread].
+      rewrite wh_nth_set_nth by (apply nth_error_Some; rewrite Hk; discriminate).
+      rewrite Nat.eqb_refl. reflexivity.
+    + apply IH. destruct i as [|j].
+      * cbn [wh_step]. rewrite wh_tick_step_threads. exact Hk.
+      * cbn [wh_step]. destruct (nth_error (wh_threads s) j) as [thj|] eqn:Ej; [|exact Hk].
+        destruct (wh_req_step_th o s thj) as [th' ev]. cbn [fst wh_threads wh_set_thread].
+        rewrite wh_nth_set_nth by (apply nth_error_Some; rewrite Ej; discriminate).
+        replace (k =? j) with false; [exact Hk|].
+        symmetry. apply Nat.eqb_neq. apply Nat.eqb_neq in Ei. lia.
+Qed.
+
+Lemma wh_thread_protocol o s n ticks progs sched k :
+  k < length progs ->
+  wh_aut_run WAIdle (wh_proj (S k) (wh_trace o (wh_init s n ticks progs) sched))
+  = Some (wh_aut_of (wh_final o (wh_init s n ticks progs) sched) k).
+Proof.
+  intros Hk.
+  destruct (nth_error (wh_threads (wh_init s n ticks progs)) k) as [th|] eqn:E.
+  - pose proof (wh_thread_protocol_gen o sched _ _ _ E) as H.
+    cbn [wh_threads wh_init] in E. rewrite nth_error_map in E.
+    destruct (nth_error progs k); [|discriminate]. injection E as <-. exact H.
+  - exfalso. apply nth_error_None in E. cbn [wh_threads wh_init] in E. rewrite map_length in E. lia.
+Qed.
